@@ -42,17 +42,22 @@ where sizeL : List Node → Nat
   | [] => 0
   | k :: ks => size k + sizeL ks
 
-/-- `process_multiref(body)`: table of the Body's children carrying an `id`, dereference, drop the
-used top-level objects -/
+/-- `multiref_objects = {elm.attrib["id"]: elm for elm in node.xpath("*[@id]")}` -/
+def tblOf (kids : List Node) : Table := kids.filterMap fun k => (getAttr k.attrs idAttr).map (fun i => (i, k))
+
+/-- `process_multiref(body)`: table of the Body's children carrying an `id`, dereference, then `parent.remove(node)` for the *objects*
+that were used - the original children, not what took a stub's place: a child of the Body that is itself a stub is replaced by a copy
+that carries the object's `id` and stays -/
 def processMultiref (fuel : Nat) (body : Node) : Node :=
   match body with
-  | .mk tag attrs text kids =>
-    let tbl : Table := kids.filterMap fun k => (getAttr k.attrs idAttr).map (fun i => (i, k))
+  | .mk _ _ _ kids =>
+    let tbl : Table := tblOf kids
     if tbl.isEmpty then body else
     let (b', used) := proc tbl fuel body
     .mk b'.tag b'.attrs b'.text
-      (b'.kids.filter fun k => match getAttr k.attrs idAttr with
-        | some i => !(used.contains i) | none => true)
+      ((kids.zip b'.kids).filterMap fun kk => match getAttr kk.1.attrs idAttr with
+        | some i => if used.contains i then none else some kk.2
+        | none => some kk.2)
 
 /-! ### XOP -/
 def xopInclude : QName := ⟨some "http://www.w3.org/2004/08/xop/include", "Include"⟩
